@@ -2,7 +2,11 @@ package main
 
 import (
 	"fmt"
+	"strings"
+	"sync"
 	"sync/atomic"
+
+	"github.com/metal-toolbox/audito-maldito/internal/common"
 
 	"github.com/metal-toolbox/audito-maldito/verif/vlib"
 )
@@ -442,6 +446,59 @@ func checkC16(r *vlib.Run) int {
 	r.Set("correlated_sessions_crossing_a_cleanup", int(corrKept))
 	r.Set("user_actions_checked", st.userActions)
 	r.Set("findings_of_other_properties_seen_not_reported_here", st.otherClass)
+	// Cleanup concurrent with the arrival of the second half: whichever of the
+	// two is processed first, the outcome must be one a sequential order gives
+	// - in particular a session that got its login is never discarded.
+	p2 := mkPlan(2)
+	cl := HOp{Kind: opClean, Cut: cutAll}
+	cprogs := []cprog{
+		{Name: "Q1 rec; (login || cleanup); ev", Plan: p2, Pre: []HOp{{Kind: opRec, K: 0}}, Threads: [][]HOp{{{Kind: opLogin, K: 0}}, {cl}}, Post: []HOp{{Kind: opEv, K: 0}}},
+		{Name: "Q2 login; (rec || cleanup); ev", Plan: p2, Pre: []HOp{{Kind: opLogin, K: 0}}, Threads: [][]HOp{{{Kind: opRec, K: 0}}, {cl}}, Post: []HOp{{Kind: opEv, K: 0}}},
+		{Name: "Q3 rec,rec'; (login || cleanup || login'); ev,ev'", Plan: p2, Pre: []HOp{{Kind: opRec, K: 0}, {Kind: opRec, K: 1}},
+			Threads: [][]HOp{{{Kind: opLogin, K: 0}}, {cl}, {{Kind: opLogin, K: 1}}}, Post: []HOp{{Kind: opEv, K: 0}, {Kind: opEv, K: 1}}},
+		{Name: "Q4 rec; (login || cleanup || cleanup); ev", Plan: p2, Pre: []HOp{{Kind: opRec, K: 0}}, Threads: [][]HOp{{{Kind: opLogin, K: 0}}, {cl}, {cl}}, Post: []HOp{{Kind: opEv, K: 0}}},
+	}
+	concSched, concFree := 0, 0
+	for _, p := range cprogs {
+		adm := p.admissible()
+		n, _ := exploreAll(p.instance, 20000, func(s *steer, outcome string) bool {
+			if s.abandoned != "" {
+				r.Inconclusive("steering abandoned for " + p.Name)
+				return false
+			}
+			if s.deadlock != "" {
+				r.Violation("C16:concurrent:deadlock", p.Name+": "+s.deadlock, map[string]any{"program": p.Name, "schedule": s.grants})
+				return false
+			}
+			if _, ok := adm[outcome]; !ok {
+				r.Violation("C16:concurrent:cleanup-vs-arrival:"+strings.Fields(p.Name)[0], fmt.Sprintf("%s: schedule %v ended with {%s}; no sequential order of cleanup and arrival gives that", p.Name, s.grants, outcome), map[string]any{"program": p.Name, "schedule": s.grants})
+			}
+			return true
+		})
+		concSched += n
+		// free-running, with delays at the lock sites
+		common.VerifLockHook = perturbHook(r.Seed)
+		bad := 0
+		for k := 0; k < r.Pick(1500, 50000) && bad < 20; k++ {
+			fns, outcome := p.instance()
+			var wg sync.WaitGroup
+			for _, f := range fns {
+				wg.Add(1)
+				go func(f func()) { defer wg.Done(); f() }(f)
+			}
+			wg.Wait()
+			concFree++
+			if o := outcome(); adm[o] == "" {
+				if _, ok := adm[o]; !ok {
+					bad++
+					r.Violation("C16:concurrent-free:cleanup-vs-arrival:"+strings.Fields(p.Name)[0], fmt.Sprintf("%s ended with {%s}; no sequential order of cleanup and arrival gives that", p.Name, o), map[string]any{"program": p.Name})
+				}
+			}
+		}
+		common.VerifLockHook = nil
+	}
+	r.Set("concurrent_cleanup_schedules_explored", concSched)
+	r.Set("concurrent_cleanup_free_runs", concFree)
 	r.Require(discarded > 1000 && kept > 1000 && corrKept > 1000, "too few discard/keep predictions exercised")
 	if r.Thorough() {
 		c16Realtime(r)
